@@ -410,6 +410,15 @@ def build(tier, seed):
     c = c01.make_case(['G'], [ms[5]], 1, [0], seed, posterior=True)
     c['prior_kind'] = 'uniform_out'
     bnd.append(c)
+    # negative model outputs under every error model: wherever the plain score is
+    # not finite the score returned with the sensitivities is not either
+    for code in codes:
+        for psi in ([-0.4, 0.3], [-1.1, 0.2]):
+            for ems, ts, n_toy, sel in (([code], [ms[5]], 1, [0]),
+                                        (['G', code], [ms[3], ms[5]], 2, [0, 1])):
+                c = c01.make_case(ems, ts, n_toy, sel, seed, tag='m')
+                c['params'][:2] = psi
+                bnd.append(c)
 
     kinds = hier.KINDS10       # every class in both tiers
     max_ids = 2 if tier == 'quick' else 3
@@ -574,3 +583,4 @@ META['level_text'] += (
     ' Also: filter posteriors with regular dimensions between pooled / heterogeneou'
     's blocks, every error parameter on its boundary, swaps of the fixed error para'
     'meter in one call.')
+META['level_text'] += (' Wave 9: negative model outputs under every error model (finiteness of both entry points agrees).')
